@@ -186,10 +186,22 @@ def gen(rng, knobs):
             good += [["wait", mt_override / 2.5], ["send", json.dumps(["CLOSE", "nope%d" % i]), "good"]]
         good += [["send", json.dumps(["REQ", "after-stall", {"kinds": [1]}]), "good"]]
         hostile = [["wait", 0.5], ["send", json.dumps(["EVENT", live]), "probe"]]
+    crowd = None
+    if not flood and rng.random() < 0.02:
+        # a long process lifetime: the well-behaved connection holds its subscriptions while a crowd of short
+        # connections (same address) comes, sends something and leaves
+        flood = True
+        crowd = histgen.crowd(rng, h)
+        for cl in crowd:
+            cl["script"] += [["send", rng.choice(["nonsense", json.dumps(["CLOSE", "zz"]), "[]"])], ["disconnect"]]
+        good = [["send", json.dumps(["REQ", "keep1", {"kinds": [1]}]), "good"],
+                ["send", json.dumps(["REQ", "keep2", {"kinds": [7]}]), "good"]]
+        hostile = [["send", json.dumps(["REQ", "h", {"kinds": [1]}]), "probe"]]
     faults = sorted(rng.sample(range(5, 120), rng.choice([0, 0, 0, 1, 2]))) if backend == "sql" and not flood else []
     limits = rng.choice([None, None, {"ip": {"EVENT": "3/s", "REQ": "4/s"}}, {"global": {"EVENT": "2/s"}, "ip": {"REQ": "2/s,5/m"}}])
     return {"backend": backend, "preload": pre, "faults": faults, "p_buffered": rng.choice([0.0, 0.3, 0.7, 1.0]),
-            "rate_limits": limits, "via_api": rng.random() < 0.5, "same_address": rng.random() < 0.3,
+            "rate_limits": limits if not crowd else None, "via_api": rng.random() < 0.5,
+            "same_address": rng.random() < 0.3 or bool(crowd), "crowd": crowd, **({"step_cap": 600000} if crowd else {}),
             "message_timeout": mt_override or rng.choice([1800, 1800, 30, 5]),
             "clients": [{"script": hostile, "slow": flood or rng.random() < 0.2, "close_fails": rng.random() < 0.2,
                          "origin": rng.choice(["", "", "https://client.example", "http://bad.actor", "HTTP://BAD.ACTOR"])},
@@ -217,7 +229,9 @@ def run(case, sim):
     backend = case["backend"]
     clients = [{"script": [[i[0]] + ([i[1]] if len(i) > 1 else []) for i in c["script"]], "slow": c.get("slow")}
                for c in case["clients"]]
-    for i, c in enumerate(clients):
+    for extra in (case.get("crowd") or []):
+        clients.append({"script": [[i[0]] + ([i[1]] if len(i) > 1 else []) for i in extra["script"]], "addr": extra.get("addr")})
+    for i, c in enumerate(clients[:len(case["clients"])]):
         c["origin"] = case["clients"][i].get("origin", "")
         c["close_fails"] = case["clients"][i].get("close_fails", False)
         c["late"] = case["clients"][i].get("late", False)
@@ -328,6 +342,24 @@ def run(case, sim):
         if early and not case.get("faults"):
             viol.append({"cls": "good-connection-penalised", "sig": "good-connection-penalised|%s" % backend,
                          "detail": {"slept_seconds": early[0][1], "same_address": bool(case.get("same_address"))}})
+    # "never affects other connections": what the well-behaved connection opened and did not close is still
+    # registered for it when everything has gone quiet (unless it was closed by the relay or left)
+    gc_ = w.clients[1]
+    if alive.get(gc_.idx, False) and not case.get("faults"):
+        held = []
+        for fr in gc_.frames:
+            m_ = parse(fr["text"])
+            if not (isinstance(m_, list) and len(m_) >= 2 and isinstance(m_[1], str)) or fr.get("reg_after") is None:
+                continue
+            if m_[0] in ("REQ", "CLOSE"):
+                held = [x for x in held if x != m_[1]]
+            if m_[0] == "REQ" and m_[1] in fr["reg_after"]:
+                held.append(m_[1])          # the relay registered it when the connection asked
+        have = set(w.final.get("registry", {}).get(gc_.idx, []))
+        lost_ = [x for x in held if x not in have]
+        if lost_:
+            viol.append({"cls": "registry-lost", "sig": "registry-lost|%s|%s" % (backend, "crowd" if case.get("crowd") else "pair"),
+                         "detail": {"held": held, "registered": sorted(have), "connections": len(w.clients)}})
     if w.final.get("registry_end"):
         viol.append({"cls": "registry-leak", "sig": "registry-leak|" + backend,
                      "detail": {"left": {str(k): v for k, v in w.final["registry_end"].items()}}})
